@@ -27,6 +27,80 @@ Ltac pfind := first [ apply pf_here | (apply pf_skip; pfind) ].
 Ltac psolve_core := first [ apply perm_nil | (eapply pm_step; [ pfind | psolve_core ]) ].
 Ltac psolve := perm_norm; psolve_core.
 
+(* ------------------------------------------------------------------ n-way interleavings *)
+Section Merge.
+  Context {B : Type}.
+
+  Lemma MergeR_add_empty (ls : list (list B)) lg : MergeR ls lg -> MergeR ([] :: ls) lg.
+  Proof.
+    induction 1 as [ls H | ls1 l x ls2 lg _ IH].
+    - apply MR_nil. constructor; auto.
+    - apply (MR_snoc ([] :: ls1)). exact IH.
+  Qed.
+
+  Lemma MergeR_perm (ls : list (list B)) lg : MergeR ls lg -> forall ls', Permutation ls ls' -> MergeR ls' lg.
+  Proof.
+    induction 1 as [ls H | ls1 l x ls2 lg _ IH]; intros ls' P.
+    - apply MR_nil. eapply Permutation_Forall; eauto.
+    - assert (Hin : In (l ++ [x]) ls').
+      { eapply Permutation_in; [ exact P | ]. apply in_elt. }
+      apply in_split in Hin as (a & b & ->).
+      apply MR_snoc. apply IH.
+      apply Permutation_app_inv in P. now apply Permutation_elt.
+  Qed.
+
+  Lemma MergeR_remove_empty (ls : list (list B)) lg : MergeR ([] :: ls) lg -> MergeR ls lg.
+  Proof.
+    remember ([] :: ls) as ls0 eqn:E. intros H. revert ls E.
+    induction H as [ls0 H | ls1 l x ls2 lg _ IH]; intros ls E.
+    - subst. inversion H; subst. now apply MR_nil.
+    - destruct ls1 as [|y ls1]; cbn in E.
+      + inversion E as [[E1 E2]]. destruct l; discriminate.
+      + inversion E as [[E1 E2]]. subst. apply MR_snoc. apply IH. reflexivity.
+  Qed.
+
+  Lemma MergeR_drop_empties (es ls : list (list B)) lg :
+    Forall (fun l => l = []) es -> MergeR (es ++ ls) lg -> MergeR ls lg.
+  Proof.
+    induction 1 as [|e es He _ IH]; cbn [app]; auto.
+    subst e. intros H. apply IH. now apply MergeR_remove_empty.
+  Qed.
+
+  (* what MergeR means: every component is a subsequence of the result, in order, and the result has
+     exactly the elements of the components *)
+  Inductive Subseq : list B -> list B -> Prop :=
+  | SubNil : forall l, Subseq [] l
+  | SubTake : forall x a l, Subseq a l -> Subseq (x :: a) (x :: l)
+  | SubSkip : forall x a l, Subseq a l -> Subseq a (x :: l).
+
+  Lemma Subseq_app_r a l r : Subseq a l -> Subseq a (l ++ r).
+  Proof. induction 1; cbn; constructor; auto. Qed.
+  Lemma Subseq_snoc a l x : Subseq a l -> Subseq (a ++ [x]) (l ++ [x]).
+  Proof.
+    induction 1 as [l | y a l _ IH | y a l _ IH]; cbn.
+    - induction l; cbn; [ repeat constructor | now apply SubSkip ].
+    - now apply SubTake.
+    - now apply SubSkip.
+  Qed.
+
+  Lemma MergeR_subseq (ls : list (list B)) lg : MergeR ls lg -> forall l, In l ls -> Subseq l lg.
+  Proof.
+    induction 1 as [ls H | ls1 l x ls2 lg _ IH]; intros c Hc.
+    - rewrite Forall_forall in H. rewrite (H c Hc). constructor.
+    - apply in_app_or in Hc as [Hc | [<- | Hc]].
+      + apply Subseq_app_r, IH, in_or_app. now left.
+      + apply Subseq_snoc, IH, in_elt.
+      + apply Subseq_app_r, IH, in_or_app. right. now right.
+  Qed.
+
+  Lemma MergeR_perm_concat (ls : list (list B)) lg : MergeR ls lg -> Permutation (concat ls) lg.
+  Proof.
+    induction 1 as [ls H | ls1 l x ls2 lg _ IH].
+    - induction H as [|l ls -> _ IHl]; cbn; auto.
+    - rewrite concat_app in *. cbn [concat] in *. rewrite <- IH. psolve.
+  Qed.
+End Merge.
+
 Section PoolProofs.
   Variables F L : Type.
   Variable blocks_of : F -> list (list L).
@@ -55,7 +129,7 @@ Section PoolProofs.
 
   Lemma inv_init : Inv (init acts n).
   Proof.
-    unfold Inv, init; cbn [sent todo queue workers scanned out].
+    unfold Inv, init; cbn [sent todo queue workers scanned out said log].
     rewrite inflight_repeat_idle, pending_repeat_idle. cbn. rewrite app_nil_r. auto.
   Qed.
 
@@ -68,7 +142,7 @@ Section PoolProofs.
   Proof.
     intros (I1 & I2 & I3) St.
     destruct St; unfold Inv in *;
-      cbn [sent todo queue workers scanned out closed] in *;
+      cbn [sent todo queue workers scanned out closed said log] in *;
       rewrite ?inflight_app, ?pending_app in *;
       cbn [inflight pending flat_map Pool.inflight_of Pool.pending_of sent_of said_of] in *;
       rewrite ?app_nil_r in *; rewrite ?flat_map_app in *; cbn [flat_map] in *; rewrite ?app_nil_r in *.
@@ -189,7 +263,7 @@ Section PoolProofs.
     - exfalso. apply H. constructor.
     - destruct w.
       + exists [], WIdle, ws. split; [ reflexivity | discriminate ].
-      + exists [], (WBusy f rest), ws. split; [ reflexivity | discriminate ].
+      + exists [], (WBusy f pre rest), ws. split; [ reflexivity | discriminate ].
       + destruct IH as (w1 & w & w2 & E & Hw).
         * intros Hf. apply H. constructor; auto.
         * exists (WExited :: w1), w, w2. subst. split; [ reflexivity | exact Hw ].
@@ -208,11 +282,11 @@ Section PoolProofs.
   Defined.
 
   (* a worker that has not exited can always move, except an idle one facing an empty open channel *)
-  Lemma worker_can_move td se q c w1 w w2 o sc :
+  Lemma worker_can_move td se q c w1 w w2 o sc sd lg :
     w <> WExited -> (q <> [] \/ c = true \/ w <> WIdle) ->
-    exists s', step (mk td se q c (w1 ++ w :: w2) o sc) s'.
+    exists s', step (mk td se q c (w1 ++ w :: w2) o sc sd lg) s'.
   Proof.
-    intros Hw Hq. destruct w as [|f [|b bs]|]; try congruence.
+    intros Hw Hq. destruct w as [|f pre [|b bs]|]; try congruence.
     - destruct q as [|f q].
       + destruct Hq as [Hq | [-> | Hq]]; try congruence. eexists. apply StepExit.
       + eexists. apply StepRecv.
@@ -223,7 +297,7 @@ Section PoolProofs.
   Theorem progress s : 0 < n -> 0 < cap -> reachable s -> ~ terminal s -> exists s', step s s'.
   Proof.
     intros Hn Hcap R NT. destruct (shape_reachable s R) as (S1 & S2 & S3 & S4).
-    destruct s as [td se q c ws o sc]; cbn [workers closed todo queue] in *.
+    destruct s as [td se q c ws o sc sd lg]; cbn [workers closed todo queue] in *.
     destruct c.
     - (* sender dropped: some worker has not exited, or the state is terminal *)
       specialize (S3 eq_refl). subst td.
@@ -244,6 +318,97 @@ Section PoolProofs.
         * destruct (first_worker ws) as (w & w2 & -> & Hw); [ lia | exact S2 | ].
           apply (worker_can_move _ _ _ _ []); auto.
           left. destruct q; cbn in Hge; [ lia | discriminate ].
+  Qed.
+
+  (* ---------------------------------------------------------------- blocks are atomic, order per file is kept *)
+  (* the components being interleaved: the producer's own lines (one block each), what each busy
+     worker has written for its file so far, and the complete block lists of the files done *)
+  Definition comps (s : state) : list (list (list L)) :=
+    map (fun l => [l]) (said s) :: map (@Pool.pre_of F L) (workers s) ++ map blocks_of (scanned s).
+
+  Definition worker_ok (w : wstate F L) : Prop :=
+    match w with WBusy f pre rest => pre ++ rest = blocks_of f | _ => True end.
+
+  Definition LogInv (s : state) : Prop :=
+    out s = concat (log s)
+    /\ said s ++ said_of (todo s) = said_of acts
+    /\ Forall worker_ok (workers s)
+    /\ MergeR (comps s) (log s).
+
+  Lemma pre_of_repeat_idle k : Forall (fun l => l = []) (map (@Pool.pre_of F L) (repeat WIdle k)).
+  Proof. induction k; cbn; constructor; auto. Qed.
+
+  Lemma loginv_init : LogInv (init acts n).
+  Proof.
+    unfold LogInv, init, comps; cbn. repeat split; auto.
+    - apply Forall_forall. intros w Hw. apply repeat_spec in Hw. now subst.
+    - apply MR_nil. constructor; auto. rewrite app_nil_r. apply pre_of_repeat_idle.
+  Qed.
+
+  Lemma map_pre_mid w1 (w : wstate F L) w2 :
+    map (@Pool.pre_of F L) (w1 ++ w :: w2) = map (@Pool.pre_of F L) w1 ++ Pool.pre_of F L w :: map (@Pool.pre_of F L) w2.
+  Proof. now rewrite map_app. Qed.
+
+  Lemma loginv_step s s' : LogInv s -> step s s' -> LogInv s'.
+  Proof.
+    intros (L1 & L2 & L3 & L4) St.
+    destruct St; unfold LogInv, comps in *; cbn [out log said todo workers scanned] in *.
+    - (* Say *)
+      repeat split; auto.
+      + rewrite concat_app, L1; cbn; now rewrite ?app_nil_r.
+      + rewrite <- L2. cbn [said_of flat_map]. now rewrite <- app_assoc.
+      + rewrite map_app. cbn [map]. apply (MR_snoc []). exact L4.
+    - (* Send *) repeat split; auto.
+    - (* Close *) repeat split; auto.
+    - (* Recv *)
+      repeat split; auto.
+      + eapply Forall_mid; [ | exact L3 ]. reflexivity.
+      + rewrite map_pre_mid in *. exact L4.
+    - (* Emit *)
+      repeat split; auto.
+      + rewrite concat_app, L1; cbn; now rewrite ?app_nil_r.
+      + assert (Hw : worker_ok (WBusy f pre (b :: bs))).
+        { apply Forall_app in L3 as [_ L3]. now inversion L3. }
+        eapply Forall_mid; [ | exact L3 ]. cbn in *. now rewrite <- app_assoc.
+      + rewrite map_pre_mid in *. cbn [Pool.pre_of] in *. rewrite <- app_assoc in *.
+        apply (MR_snoc (map (fun l0 => [l0]) sd :: map (@Pool.pre_of F L) w1) pre b
+                       (map (@Pool.pre_of F L) w2 ++ map blocks_of sc)).
+        exact L4.
+    - (* Finish *)
+      assert (Hw : worker_ok (WBusy f pre [])).
+      { apply Forall_app in L3 as [_ L3]. now inversion L3. }
+      cbn in Hw. rewrite app_nil_r in Hw. subst pre.
+      repeat split; auto.
+      + eapply Forall_mid; [ | exact L3 ]. exact I.
+      + rewrite map_pre_mid in *. cbn [Pool.pre_of] in *. rewrite map_app. cbn [map].
+        apply MergeR_add_empty in L4. eapply MergeR_perm; [ exact L4 | ]. psolve.
+    - (* Exit *)
+      repeat split; auto.
+      + eapply Forall_mid; [ | exact L3 ]. exact I.
+      + rewrite map_pre_mid in *. exact L4.
+  Qed.
+
+  Lemma loginv_reachable s : reachable s -> LogInv s.
+  Proof. induction 1; [ apply loginv_init | eauto using loginv_step ]. Qed.
+
+  Lemma all_exited_pre ws : Forall (fun w => w = @WExited F L) ws -> Forall (fun l => l = []) (map (@Pool.pre_of F L) ws).
+  Proof. induction 1 as [|w ws -> _ IH]; cbn; constructor; auto. Qed.
+
+  (* terminal states: the sequence of blocks written is an interleaving of the producer's lines and
+     of the complete block lists of the scanned files, each in its own order; stdout/stderr is the
+     concatenation of these blocks (no block is split) *)
+  Theorem output_interleaving s : reachable s -> terminal s ->
+    out s = concat (log s)
+    /\ Permutation (scanned s) (sent_of acts)
+    /\ MergeR (map (fun l => [l]) (said_of acts) :: map blocks_of (scanned s)) (log s).
+  Proof.
+    intros R T. pose proof (exactly_once s R T) as EO.
+    destruct (loginv_reachable s R) as (L1 & L2 & _ & L4).
+    destruct T as (T1 & _ & _ & T4).
+    repeat split; auto.
+    rewrite T1 in L2. cbn in L2. rewrite app_nil_r in L2. unfold comps in L4. rewrite L2 in L4.
+    eapply MergeR_perm in L4; [ | apply Permutation_middle ].
+    eapply MergeR_drop_empties in L4; [ exact L4 | now apply all_exited_pre ].
   Qed.
 
   (* ---------------------------------------------------------------- every schedule is finite *)
@@ -293,13 +458,13 @@ Proof.
     eapply reach_front. { apply StepSend; cbn; lia. }
     eapply reach_front. { apply StepClose. }
     eapply reach_front. { apply (StepRecv _ _ ex_blocks 10 1%N [] _ [2%N] true [] [WIdle]). }
-    eapply reach_front. { apply (StepRecv _ _ ex_blocks 10 2%N [] _ [] true [WBusy 1%N (ex_blocks 1%N)] []). }
-    eapply reach_front. { apply (StepEmit _ _ ex_blocks 10 2%N [2; 102]%N [[202%N]] [] _ [] true [WBusy 1%N (ex_blocks 1%N)] []). }
-    eapply reach_front. { apply (StepEmit _ _ ex_blocks 10 1%N [1; 101]%N [[201%N]] [] _ [] true [] [WBusy 2%N [[202%N]]]). }
-    eapply reach_front. { apply (StepEmit _ _ ex_blocks 10 1%N [201%N] [] [] _ [] true [] [WBusy 2%N [[202%N]]]). }
-    eapply reach_front. { apply (StepEmit _ _ ex_blocks 10 2%N [202%N] [] [] _ [] true [WBusy 1%N []] []). }
-    eapply reach_front. { apply (StepFinish _ _ ex_blocks 10 2%N [] _ [] true [WBusy 1%N []] []). }
-    eapply reach_front. { apply (StepFinish _ _ ex_blocks 10 1%N [] _ [] true [] [WIdle]). }
+    eapply reach_front. { apply (StepRecv _ _ ex_blocks 10 2%N [] _ [] true [WBusy 1%N [] (ex_blocks 1%N)] []). }
+    eapply reach_front. { apply (StepEmit _ _ ex_blocks 10 2%N [] [2; 102]%N [[202%N]] [] _ [] true [WBusy 1%N [] (ex_blocks 1%N)] []). }
+    eapply reach_front. { apply (StepEmit _ _ ex_blocks 10 1%N [] [1; 101]%N [[201%N]] [] _ [] true [] [WBusy 2%N _ [[202%N]]]). }
+    eapply reach_front. { apply (StepEmit _ _ ex_blocks 10 1%N _ [201%N] [] [] _ [] true [] [WBusy 2%N _ [[202%N]]]). }
+    eapply reach_front. { apply (StepEmit _ _ ex_blocks 10 2%N _ [202%N] [] [] _ [] true [WBusy 1%N _ []] []). }
+    eapply reach_front. { apply (StepFinish _ _ ex_blocks 10 2%N _ [] _ [] true [WBusy 1%N _ []] []). }
+    eapply reach_front. { apply (StepFinish _ _ ex_blocks 10 1%N _ [] _ [] true [] [WIdle]). }
     eapply reach_front. { apply (StepExit _ _ ex_blocks 10 [] _ [] [WIdle]). }
     eapply reach_front. { apply (StepExit _ _ ex_blocks 10 [] _ [WExited] []). }
     apply ReachRefl.
